@@ -10,7 +10,12 @@ CLAIMED = {
    note='Trusted: Coq kernel + vm_compute (65536-unit sweep), extraction + 40-line OCaml driver (cross-checked by vm_compute sample), Rust harness, hand model tied by correspondence only; evaluator is an oracle. String-literal escapes are covered by correspondence only so far.',
    technique='Coq proof (induction + finite kernel sweep) + differential model/implementation correspondence',
    ref='DESIGN.md §8 C18'),
-}
+
+ 'C06': dict(
+   text='Partial by nature. Proved (coq/Properties/C06.v): panic-freedom of the modelled functions reachable from evaluate/preview/inline (JSON escaper and inline JSON for all Unicode text, superscript-exponent accumulation for digit strings of any length in checked and unchecked builds, the i^y selector); the other areas add their own no-panic theorems in their property files. Observed, not proved: everything else, by crash probes on the default build (feature off) in debug (overflow checks) and release profiles over 48 context configurations: suite+manual corpus read from /repo, mutations, token soup, every typed prefix, bounded nesting ramps. Native stack exhaustion is reachable (two open known findings).',
+   note='Trusted: Coq kernel; extraction+driver; harness_plain; 8 MiB stack / 4 GiB address-space limits of the probe workers. Hangs and >=128 MiB allocation failures are counted as resource exhaustion (C07), not crashes. Models tied by correspondence (superscripts vs evaluate).',
+   technique='Coq panic-freedom theorems for modelled functions + differential crash probing of the real library',
+   ref='DESIGN.md §8 C06'),
 
 NA_REASON = 'not yet built in this revision of /verif (planned: DESIGN.md §8); no check is claimed until its model, theorems and correspondence run exist'
 
@@ -51,4 +56,12 @@ m = {
  'notes': 'See DESIGN.md. Known findings: known_findings.json.',
 }
 json.dump(m, open(os.path.join(ROOT, 'MANIFEST.json'), 'w'), indent=1)
+# merge the per-property fragments into the single committed known-findings file
+frag_dir = os.path.join(ROOT, 'known_findings.d')
+allf = []
+for fn in sorted(os.listdir(frag_dir)) if os.path.isdir(frag_dir) else []:
+    if fn.endswith('.json'):
+        allf += json.load(open(os.path.join(frag_dir, fn)))
+json.dump({'comment': 'Genuine defects of printfn/fend found by the checks in /verif (merged from known_findings.d/*.json by tools/mkmanifest.py). status=open: the check prints a KNOWN-FINDING line for it and does not fail; status=fixed: repaired by the named fix: commit in /repo, suppresses nothing. Never written at run time.',
+           'findings': allf}, open(os.path.join(ROOT, 'known_findings.json'), 'w'), indent=1, ensure_ascii=False)
 print('claimed:', [c['property_id'] for c in checks])
